@@ -31,12 +31,13 @@ def load_baseline(prop):
 
 def save_baseline(prop, reports):
     os.makedirs(BASELINE_DIR, exist_ok=True)
-    data = {}
+    # entries of functions not verified in this run (thorough-tier-only functions during a quick update) are kept
+    data = {k: v for k, v in (load_baseline(prop) or {}).items() if k in FUNCS and k not in {r.key for r in reports}}
     for r in reports:
         kinds = {}
         for o in r.obligations:
             kinds.setdefault(kindsig(o["name"]), []).append(o["result"])
-        data[r.key] = dict(sha=r.sha, obligations=len(r.obligations), discharged=len(r.discharged), kinds={k: sorted(set(v)) for k, v in kinds.items()})
+        data[r.key] = dict(sha=r.sha, obligations=len(r.obligations) + len(r.infeasible), discharged=len(r.discharged), kinds={k: sorted(set(v)) for k, v in kinds.items()})
     json.dump(data, open(os.path.join(BASELINE_DIR, f"{prop}.json"), "w"), indent=1, sort_keys=True)
 
 
@@ -53,6 +54,8 @@ def run_proofs(run, keys, tier="quick", update_baseline=False, source_root=None)
     samples = []
     backends = {}
     assumptions = set()
+    skipped = [k for k in keys if FUNCS[k].tier == "thorough" and tier != "thorough"]
+    keys = [k for k in keys if k not in skipped]
     all_reports = V.verify_many(keys, source_root=source_root, keep_smt=True)
     for key, rep in zip(keys, all_reports):
         reports.append(rep)
@@ -78,8 +81,10 @@ def run_proofs(run, keys, tier="quick", update_baseline=False, source_root=None)
             o = rep.discharged[len(rep.discharged) // 2]
             samples.append(dict(obligation=o["name"], path=o["path"], backend=o["backend"], ms=o["ms"], smt2_head=(o.get("smt") or "")[-1500:]))
         # vacuity: an unchanged function must generate at least the baseline's obligations
-        if base is not None and not changed and not update_baseline and len(rep.obligations) < base["obligations"]:
-            run.crashes.append(f"{key}: {len(rep.obligations)} obligations generated, baseline has {base['obligations']} (vacuity guard)")
+        # (obligations on paths whose path condition the solver proved unsatisfiable are listed apart; whether a dead path --
+        # e.g. the continuation after a NoReturn callee -- is recognised depends on solver timing, so the guard counts both)
+        if base is not None and not changed and not update_baseline and len(rep.obligations) + len(rep.infeasible) < base["obligations"]:
+            run.crashes.append(f"{key}: {len(rep.obligations) + len(rep.infeasible)} obligations generated, baseline has {base['obligations']} (vacuity guard)")
         if not rep.obligations:
             run.crashes.append(f"{key}: zero obligations generated (vacuity guard)")
         bad = [o for o in rep.obligations if o["result"] != "unsat"]
@@ -129,6 +134,8 @@ def run_proofs(run, keys, tier="quick", update_baseline=False, source_root=None)
     cov["obligations"] = sum(e["obligations"] for e in per_fn)
     cov["discharged"] = sum(e["discharged"] for e in per_fn)
     cov["functions_under_contract"] = per_fn
+    if skipped:
+        cov["functions_verified_in_thorough_tier_only"] = skipped
     cov["solver_ms_total"] = total_ms
     cov["backends"] = backends
     cov["checker_cmd"] = f"./vcheck {run.prop} --tier {tier}"
@@ -173,7 +180,7 @@ def bounded_search(run, c, tier, reason, payload=None, skip_known=False):
 def check_lemmas(run, tier):
     """thorough tier: re-check the Lean lemma library; quick tier: record that it was not re-checked this run"""
     import subprocess
-    entry = dict(files=["lemmas/Cycle.lean", "lemmas/Filter.lean", "lemmas/Flat.lean"], rechecked_this_run=False)
+    entry = dict(files=["lemmas/Cycle.lean", "lemmas/Filter.lean", "lemmas/Flat.lean", "lemmas/Remove.lean"], rechecked_this_run=False)
     if tier == "thorough":
         try:
             p = subprocess.run([os.path.join(ROOT, "lemmas", "check.sh")], capture_output=True, text=True, timeout=1800)
